@@ -482,4 +482,52 @@ example : (getConstantsRp (fun a b : Int => (a + b) / 2) [("rMin", 0), ("rMax", 
     (getConstantsRp (fun a b : Int => (a + b) / 2) [] 4 [("rMax", .lit 14), ("kN0", .lit 3)]).map (fun e => (e "rMin", e "rMax", e "rp"))
       = some (none, some 14, none) := by decide
 
+/-! ### the folder of a run -/
+
+theorem firstFree_spec (isdir : Nat → Bool) : ∀ (fuel i k : Nat), firstFree isdir fuel i = some k →
+    i ≤ k ∧ isdir k = false ∧ ∀ j, i ≤ j → j < k → isdir j = true
+  | 0, _, _, h => by simp [firstFree] at h
+  | fuel + 1, i, k, h => by
+    simp only [firstFree] at h
+    by_cases hd : isdir i = true
+    · rw [if_pos hd] at h
+      obtain ⟨h1, h2, h3⟩ := firstFree_spec isdir fuel (i + 1) k h
+      refine ⟨by omega, h2, fun j hj hjk => ?_⟩
+      by_cases hji : j = i
+      · rw [hji]; exact hd
+      · exact h3 j (by omega) hjk
+    · rw [if_neg hd] at h
+      simp only [Option.some.injEq] at h
+      subst h
+      exact ⟨le_refl _, by simpa using hd, fun j hj hjk => by omega⟩
+
+/-- **a run that lets `setupSave` choose its folder gets a NEW one**: the index returned is that of no existing folder (and it is the
+    smallest such index) — whatever gaps the numbering of the existing folders has. -/
+theorem setupSave_folder_is_new (existing : List Nat) (fuel k : Nat)
+    (h : firstFree (fun i => existing.contains i) fuel 0 = some k) :
+    k ∉ existing ∧ ∀ j < k, j ∈ existing := by
+  obtain ⟨_, h2, h3⟩ := firstFree_spec _ fuel 0 k h
+  refine ⟨?_, fun j hj => ?_⟩
+  · intro hk
+    have : existing.contains k = true := by simpa using hk
+    rw [this] at h2; exact absurd h2 (by simp)
+  · have := h3 j (Nat.zero_le _) hj
+    simpa using this
+
+/-- the search succeeds: with all existing indices below `n`, `n + 1` steps of fuel suffice from index 0 -/
+theorem firstFree_total (existing : List Nat) (n : Nat) (hb : ∀ j ∈ existing, j < n) : ∀ (fuel i : Nat), n ≤ i + fuel →
+    (firstFree (fun j => existing.contains j) (fuel + 1) i).isSome = true
+  | fuel, i, h => by
+    simp only [firstFree]
+    by_cases hd : existing.contains i = true
+    · rw [if_pos hd]
+      have hi : i < n := hb i (by simpa using hd)
+      cases fuel with
+      | zero => omega
+      | succ f => exact firstFree_total existing n hb f (i + 1) (by omega)
+    · rw [if_neg hd]; rfl
+
+/-- counting the existing folders instead (seeded change C18-21) returns an EXISTING folder as soon as the numbering has a gap -/
+theorem count_is_not_fresh : countFree [0, 2] ∈ [0, 2] ∧ firstFree (fun i => [0, 2].contains i) 3 0 = some 1 := by decide
+
 end PygyroVerif.C18Rp
